@@ -44,6 +44,7 @@ func runC03(c *Ctx) {
 	c.Rule("C03.Y", "compatibility with the party that is not changed with this code: blob layout of stored responses; the shim code is only injected under its flag", 3)
 	ruleBlobLayout(c, p, "C03.Y")
 	ruleHostProxyFlagRoles(c, p, "C03.Y", "inject")
+	c.Borrow(runC14, "C14.T", "C03.S", func(k string) bool { return strings.HasPrefix(k, "isFrameable:") })
 	c.Rule("C03.P", "ownership transfer of the published response's Header/Trailer maps", 2)
 	rulePublishedMaps(c, p, "C03.P")
 	c.Rule("C03.T", "declared-trailer names are tokenised on ',' before they are used as keys", 3)
